@@ -127,6 +127,9 @@ def run_scripts(c, binp, scripts, label, shards, watchdog=WATCHDOG):
         for sc, tr in zip(part, traces):
             if tr[0]["id"] != sc["id"]:
                 raise vlib.Inconclusive("driver %s: trace/script mismatch" % label)
+            for e in tr:
+                if e["ev"] == "harness_error" or (e["ev"] == "skip" and "not observed" in e.get("why", "")):
+                    raise vlib.Inconclusive("driver %s could not run %s: %s" % (label, describe(sc), e))
             res.append((sc, tr))
     return res
 
@@ -310,10 +313,10 @@ def run(c):
                     vacuous_ok=("FatalUnlock",))        # FatalUnlock belongs to the blocking send only
     deep = []
     if not q:
-        deep = [("design_deep", (3, 3, 5, 2)), ("design_4_components", (4, 2, 4, 1)), ("design_3_reloads", (2, 4, 5, 2))]
+        deep = [("design_6_events", (3, 3, 6, 2)), ("design_4_components", (4, 3, 5, 2)), ("design_3_reloads", (2, 4, 6, 3))]
         for label, k in deep:
             c.tlc_must_pass("Collector", "CollectorMC", cfg_text=cfg(*k, False, ["TypeOK"] + CLAUSES),
-                            timeout=1500, label=label, workers=min(12, ncpu))
+                            timeout=2400, label=label, workers=min(12, ncpu))
     # the two pinned mechanisms, one at a time: TLC is expected to find the deadlock (blocking send under
     # the reporter mutex) and the panic (watcher channel closed under a notifier).  Recorded in the
     # evidence; never a verdict by itself (their counterexamples become scripts in step 2).
@@ -354,7 +357,7 @@ def run(c):
                 scripts.append(sc)
             if b.get("bad"):
                 counter.add(sc["id"])
-        limit = 1500 if q else 12000
+        limit = 1500 if q else 20000
         if len(scripts) > limit:
             # stratified sample: round-robin over the "shapes" of the scripts (kinds of events, kinds
             # of anchors, kinds of failures, counterexample of the model or not), so that no family
@@ -444,7 +447,7 @@ def run(c):
     # 5. strict conformance of a sample of the logs with the implementation-shaped model
     t0 = time.time()
     good = [(sc, tr) for sc, tr in results if sc["id"] not in bad]
-    nfollowed, nstrict = strict(c, good, "strict", 400 if q else 3000)
+    nfollowed, nstrict = strict(c, good, "strict", 400 if q else 5000)
     c.extra["strict_conformance"] = dict(logs=nstrict, followed_by_Collector_tla=nfollowed)
     c.log("strict conformance: Collector.tla follows %d of %d logs (%.1fs)" % (nfollowed, nstrict, time.time() - t0))
     ok_traces = len([1 for sc, tr in results if sc["id"] not in bad])
